@@ -702,6 +702,59 @@ class Body:
             for s_ in ss:
                 stack.append((s_, path + [s_], seen | {s_}))
 
+    def canon(self, pl, depth=0):
+        """Canonical root of a place: follows whole copies / moves / refs and fields of tuple aggregates, so that
+        `(qos, flag, id).2` and `id` are recognised as the same value. Returns a hashable key."""
+        if depth > 12:
+            return _place_key(pl)
+        proj = [p for p in pl["p"] if p != "deref"]
+        ds = self.whole_defs(pl["l"])
+        if len(ds) == 1 and ds[0][0] == "stmt":
+            rv = ds[0][3]["rv"]
+            if rv["k"] in ("use", "ref") :
+                src = rv["op"] if rv["k"] == "use" else {"pl": rv["pl"]}
+                if src.get("k") != "const":
+                    sp = src["pl"]
+                    return self.canon({"l": sp["l"], "p": list(sp["p"]) + proj}, depth + 1)
+            if rv["k"] == "agg" and rv["what"] == "tuple" and proj and isinstance(proj[0], dict) and "f" in proj[0]:
+                k = proj[0]["f"]
+                if k < len(rv["ops"]) and rv["ops"][k].get("k") != "const":
+                    sp = rv["ops"][k]["pl"]
+                    return self.canon({"l": sp["l"], "p": list(sp["p"]) + proj[1:]}, depth + 1)
+        return _place_key({"l": pl["l"], "p": proj})
+
+    def feasible(self, path):
+        """Cheap infeasibility filter: a path may not take contradictory edges on two discriminant tests of the
+        same (canonical, never reassigned) place."""
+        known = {}
+        for a, b in zip(path, path[1:]):
+            t = self.term(a)
+            if t["k"] != "switch":
+                continue
+            si = self.switch_info(a)
+            if not si or si["kind"] != "discr":
+                continue
+            key = self.canon(si["place"])
+            root = int(key.split(".")[0])
+            if len(self.whole_defs(root)) > 1 or any(d[0] == "stmt" and d[3]["lhs"]["p"] for d in self.defs.get(root, [])):
+                continue
+            vals = self.edge_value(a, b)
+            allowed = set()
+            for v in vals:
+                if v == "otherwise":
+                    listed = {x for x, _ in si["targets"]}
+                    allowed |= {d for d in si["variants"] if d not in listed} if si["variants"] else {"other"}
+                else:
+                    allowed.add(v)
+            if key in known:
+                inter = known[key] & allowed
+                if not inter:
+                    return False
+                known[key] = inter
+            else:
+                known[key] = allowed
+        return True
+
     def line_of(self, bb):
         return self.term(bb).get("cline") or self.term(bb).get("line")
 
